@@ -104,12 +104,12 @@ type jStep struct {
 	State jState  `json:"state"`
 }
 type jResult struct {
-	Steps   []jStep `json:"steps"`
-	Cleanup [][]int `json:"cleanup"`
-	Panic   string  `json:"panic"`
-	PanicAt int     `json:"panic_at"`
-	Hang    bool    `json:"hang"`
-	Rejected string `json:"rejected"` // ParseData error for toml-sourced cases
+	Steps    []jStep `json:"steps"`
+	Cleanup  [][]int `json:"cleanup"`
+	Panic    string  `json:"panic"`
+	PanicAt  int     `json:"panic_at"`
+	Hang     bool    `json:"hang"`
+	Rejected string  `json:"rejected"` // ParseData error for toml-sourced cases
 }
 
 func bitsToFloat(s string) float64 {
